@@ -1,6 +1,6 @@
 """C16 threshold / morphology / median: decision tables, loop-nest application, guarded division, guarded access,
 documented compositions -- structural rules over the instantiated AST."""
-import os, json
+import os, json, re
 from . import common as C
 from .ast import rules as R
 
@@ -231,6 +231,50 @@ def run(rep):
                 rep.ok("T4-extremum", "morph_impl:%s uses %s" % (ident, want), cs)
             else:
                 rep.violation("T4-extremum", "T4:morph_impl:%s" % ident, R.fn_where(f), {"calls_under_%s" % ident: cs, "expected": [want]})
+        # every structuring element entry takes part: the two kernel loops run 0..size-1 with unit steps and the only way to skip an
+        # entry is `continue` under the entry == 0 test (a break/return would drop the entries after it)
+        kn = f["params"][2]["name"]
+        kloops = [x for x, _ in R.find(f["body"], lambda x: x.get("k") == "For" and x.get("cond") is not None and (kn + ".size()") in R.key(x["cond"]))]
+        rep.count("obligations:T4-coverage")
+        probs = []
+        if len(kloops) != 2:
+            probs.append("expected two loops over the structuring element, found %d" % len(kloops))
+        for lp in kloops:
+            init = R.strip(lp.get("init"))
+            iv = init["decls"][0]["name"] if init is not None and init.get("k") == "Decl" and init.get("decls") else None
+            ck = R.key(lp["cond"])
+            if iv is None or R.key(init["decls"][0].get("init")) != "0" or ck not in ("(%s < %s.size())" % (iv, kn),) or R.key(lp.get("inc")) not in ("(++%s)" % iv, "(%s++)" % iv):
+                probs.append("kernel loop is not `for (i = 0; i < kernel.size(); ++i)`: init %s, cond %s, inc %s" % (R.key(init["decls"][0].get("init")) if iv else "?", ck, R.key(lp.get("inc"))))
+        if kloops:
+            inner = kloops[-1]
+            for x, p in R.find(inner.get("body"), lambda x: x.get("k") in ("Break", "Return", "Throw")):
+                probs.append("`%s` inside the kernel loops at line %s" % (x["k"].lower(), x.get("line")))
+            for x, p in R.find(inner.get("body"), lambda x: x.get("k") == "Continue"):
+                gs = R.guards(p)
+                own = [g for g in gs if ".at(" in (g[1] + g[2])]
+                if not any(op == "==" and "0" in (l, r) for op, l, r in own):
+                    probs.append("`continue` at line %s is not guarded by `%s.at(..) == 0`" % (x.get("line"), kn))
+        if probs:
+            rep.violation("T4-coverage", "T4:morph_impl:structuring element coverage", R.fn_where(f), {"problems": probs, "problem": "entries of the structuring element after the offending statement never contribute to the maximum/minimum"})
+        else:
+            rep.ok("T4-coverage", "morph_impl visits every structuring element entry; zero entries are skipped with continue", len(kloops))
+        # the entry read as kernel.at(ix, iy) (x first, see kernel_2d::at) is the one whose indices give the pixel offset: ix in the column offset, iy in the row offset
+        rep.count("obligations:T4-index")
+        ats = [c for c, _ in R.find(f["body"], lambda x: x.get("k") == "Call" and x.get("member_call") and x["callee"]["name"].endswith("::at") and R.key(x.get("obj")) == kn)]
+        asg = {R.key(a["l"]): R.key(a["r"]) for a, _ in R.find(f["body"], lambda x: x.get("k") == "Assign")}
+        colv = [v for v, e in asg.items() if "view_col" in e and v != "view_col"]
+        rowv = [v for v, e in asg.items() if "view_row" in e and v != "view_row"]
+        probs = []
+        if len(ats) != 1 or len(colv) != 1 or len(rowv) != 1:
+            rep.fail_analysis("T4-index: kernel.at / offset assignments not recognised (%d at-calls, col %s, row %s)" % (len(ats), colv, rowv))
+        else:
+            ix, iy = R.key(ats[0]["args"][0]), R.key(ats[0]["args"][1])
+            if not (re.search(r"\b%s\b" % re.escape(ix), asg[colv[0]]) and re.search(r"\b%s\b" % re.escape(iy), asg[rowv[0]])):
+                rep.violation("T4-index", "T4:morph_impl:structuring element index", R.fn_where(f),
+                              {"element_read": R.key(ats[0]), "column_offset": "%s = %s" % (colv[0], asg[colv[0]]), "row_offset": "%s = %s" % (rowv[0], asg[rowv[0]]),
+                               "problem": "kernel_2d::at(x, y): the x index must be the one used for the column offset; otherwise the structuring element is applied transposed"})
+            else:
+                rep.ok("T4-index", "morph_impl: at(%s,%s) with column offset from %s and row offset from %s" % (ix, iy, ix, iy), R.key(ats[0]))
         # destination write
         wr = [(c, p) for c, p in R.find(f["body"], lambda x: x.get("k") in ("Assign", "Call") and (x.get("op") == "=") and R.key(x.get("l") or x["args"][0]).startswith(dvw + "("))]
         okw = False
